@@ -419,8 +419,9 @@ def unknown_opcode(r, fn=None, mult=None, nbytes=None):
     fn = r.randrange(4) if fn is None else fn
     last = (fn << 6) | r.getrandbits(6)
     if mult is None:
-        mult = r.choice([0, 0, 1, 2, 0xff, 0x100, 1 << 16, (1 << 16) - 1, 1 << 24, (1 << 24) - 1, (1 << 32) - 1, (1 << 32) - 2,
-                         r.getrandbits(8), r.getrandbits(16), r.getrandbits(24), r.getrandbits(32)])
+        mult = r.choice([0, 0, 1, 2, 0xff, 0x100, 1 << 16, (1 << 16) - 1, 1 << 24, (1 << 24) - 1, 0xfffeffff, 0xffff0000,
+                         r.getrandbits(8), r.getrandbits(16), r.getrandbits(24), r.getrandbits(31), r.getrandbits(32),
+                         (1 << 32) - 1] if r.random() < 0.5 else [0, 1, r.getrandbits(8), r.getrandbits(16), r.getrandbits(24)])
     mb = mult.to_bytes(4, "big").lstrip(b"\x00")
     if nbytes is not None:
         mb = mb.rjust(nbytes, b"\x00") if nbytes >= len(mb) else mb
@@ -431,7 +432,7 @@ def unknown_opcode(r, fn=None, mult=None, nbytes=None):
 
 def unknown_len_cases(r, n, thorough=False):
     """`ul` lines: (opcode, flags, budget, lens) with argument lengths up to 2^24 (2^26 thorough)"""
-    maxe = 26 if thorough else 24
+    maxe = 26 if thorough else 22
     out = []
     for _ in range(n):
         ncm = r.random() < 0.4
@@ -488,7 +489,7 @@ def unknown_tree_cases(r, n, strict_share=0.2):
         flags = (NEW_COST_MODEL if ncm else 0) | r.choice([0, 0, NO_UNKNOWN_OPS, LIMITS, CANONICAL_INTS])
         fn = r.randrange(4)
         nargs = r.choice([0, 1, 2, 3, 4, 6])
-        args = [blob(r) if r.random() < 0.85 else gen.Rep(0x41, r.choice([100000, 1 << 20])) for _ in range(nargs)]
+        args = [blob(r) if r.random() < 0.97 else gen.Rep(0x41, r.choice([100000, 100000, 1 << 20])) for _ in range(nargs)]
         if r.random() < 0.25 and args:
             args[r.randrange(len(args))] = small_tree(r)
         term = b"" if r.random() < 0.8 else r.choice([b"\x01", b"\xff\xff", gen.Rep(0x41, 77)])
